@@ -31,7 +31,7 @@
 #define QB_MAX_NUM_SIGNALS __DARWIN_NSIG
 #else
   #if defined(NSIG)
-  #define QB_MAX_NUM_SIGNALS NSIG - 1
+  #define QB_MAX_NUM_SIGNALS NSIG
   #else
   #define QB_MAX_NUM_SIGNALS 31
   #endif
